@@ -473,6 +473,19 @@ impl Plan {
                             nums.push(Row { doc: i, layer, mode, n: toks.len() as u64 * NUMERALS.len() as u64, n_sub: 6, cuts: Some(Arc::new(toks)) });
                         }
                     }
+                    // ... and the header text inside BAM / BCF (SAM / VCF header lines; l_text follows the change)
+                    if matches!(d.format, Format::Bam | Format::Bcf) && layer == Layer::Inner && matches!(mode, Mode::Read(_)) && (thorough || !twin) {
+                        let inner = &d.inner.as_ref().unwrap().bytes;
+                        let at = if d.format == Format::Bam { 4 } else { 5 };
+                        if let Some(l_text) = vnd::walk::le_u32(inner, at) {
+                            if at + 4 + l_text <= inner.len() {
+                                let toks: Vec<usize> = numeral_tokens(&inner[at + 4..at + 4 + l_text]).into_iter().map(|t| t + ((at + 4) << 16)).collect();
+                                if !toks.is_empty() {
+                                    nums.push(Row { doc: i, layer, mode, n: toks.len() as u64 * NUMERALS.len() as u64, n_sub: 6, cuts: Some(Arc::new(toks)) });
+                                }
+                            }
+                        }
+                    }
                     let quick_ns = if is_text { 14 } else { 6 };
                     let ns = if thorough && (quick_names.contains(&d.name) || (d.equiv_of.is_none() && i >= n_corpus && is_text)) { 255 } else { quick_ns };
                     trunc.push(Row { doc: i, layer, mode, n: len, n_sub: ns, cuts: None });
@@ -649,6 +662,12 @@ impl Plan {
                 spliced.extend_from_slice(&base[..off]);
                 spliced.extend_from_slice(v.as_bytes());
                 spliced.extend_from_slice(&base[off + len..]);
+                if matches!(d.format, Format::Bam | Format::Bcf) {
+                    // header text of a binary document: l_text follows the change
+                    let at = if d.format == Format::Bam { 4 } else { 5 };
+                    let l = vnd::walk::le_u32(base, at)? + v.len() - len;
+                    spliced[at..at + 4].copy_from_slice(&(l as u32).to_le_bytes());
+                }
                 let ls = base[..off].iter().rposition(|&c| c == b'\n').map(|p| p + 1).unwrap_or(0);
                 let what = format!(
                     "numeral {:?} at {off} (line {:?}, column {}) -> {v:?}",
